@@ -1,2 +1,5 @@
 #!/bin/sh
-exit 0
+# MANIFEST.setup_cmd: build the framework from files on disk only (offline)
+cd "$(dirname "$0")" || exit 1
+export CARGO_NET_OFFLINE=true
+exec python3 -m tools.setup
